@@ -204,6 +204,23 @@ def spectrum(ctx, N, cls_qual=PCOVR, label="PCovR"):
     else:
         ref = ctx.call_func(I2, s2, "ref.pcovr_ref.kernel_resolved_components", mat, frac, base["tol"])
     ctx.compare("R-SPECTRUM", f"{label}._decompose_full: a fractional n_components keeps the leading eigenvalues carrying that fraction of their sum", N, ctx.attr(st, o, "n_components_"), ref, site)
+    if label == "PCovR":
+        # n_components='mle': Minka's estimate from the eigenvalues S / (n_samples - 1) and the number of SAMPLES
+        seen = []
+
+        def hook(interp, qual, args, kw, st_, node):
+            if qual.endswith("_infer_dimension"):
+                seen.append(list(args) + [kw.get(k_) for k_ in ("spectrum", "n_samples") if kw.get(k_) is not None])
+            return None
+
+        I, st = ctx.interp(assume=_assume_int, order=[("M", "<=", "N")], call_hook=hook), State()
+        o = ctx.bare_object(I, st, cls, dict(base, n_components_="mle"))
+        ctx.call_method(I, st, o, "_decompose_full", mat)
+        from ..terms import T as _T
+
+        want_ev = _T("sdiv", _T("svd_S", mat.term), _T("sub", base["n_samples_in_"].term, _T("const", __import__("fractions").Fraction(1))))
+        ok = len(seen) == 1 and len(seen[0]) == 2 and N.nf(seen[0][1].term) == N.nf(base["n_samples_in_"].term) and N.nf(seen[0][0].term) == N.nf(want_ev)
+        ctx.ob("R-SPECTRUM", f"{label}._decompose_full: 'mle' infers the dimension from the eigenvalues S/(n_samples-1) and the number of samples", ok, f"_infer_dimension called with {[[repr(a_.term)[:80] for a_ in c_] for c_ in seen]}", site, "n_components=mle")
     # truncated solvers
     for solver in ("arpack", "randomized"):
         I, st = ctx.interp(order=[("K", "<", "N"), ("K", "<", "M"), ("K", ">=", 1)], assume=_assume_int), State()
